@@ -7,7 +7,7 @@ CONSTANTS
   IdClasses = {"low", "gen", "high"}
   DictForms = {"plain", "cf-length-bits", "cf-no-length", "no-length", "uo-padded", "strf-identity"}
   Roots = {"object", "objstm"}
-  Dev = {"aesv3_key_truncated"}
+  Dev = {"strf_ignored"}
 INIT Init
 NEXT Next
 INVARIANTS PlaintextOrRejected
